@@ -10,8 +10,14 @@ from .cexec import Exec, PathEnd, CannotMerge
 class LoopView:
     """What an invariant sees: locals of the enclosing function by name, plus the state."""
 
-    def __init__(self, eng, st, entry=None):
-        self.eng, self.st, self.entry = eng, st, entry
+    def __init__(self, eng, st, entry=None, head=None):
+        self.eng, self.st, self.entry, self.headst = eng, st, entry, head
+
+    def at_head(self, name):
+        """value of a local at the head of the (arbitrary) iteration being checked; None outside preservation"""
+        if self.headst is None:
+            return None
+        return self.eng.local(self.headst, name)
 
     def __getitem__(self, name):
         return self.eng.local(self.st, name)
@@ -588,8 +594,8 @@ class Sym(Exec):
         tag = "%s.loop%d" % (fn, ordinal)
         entry = st.clone()
 
-        def inv_list(s):
-            r = spec.invariant(LoopView(self, s, entry))
+        def inv_list(s, head=None):
+            r = spec.invariant(LoopView(self, s, entry, head))
             if isinstance(r, (list, tuple)):
                 return [(nm, g) for (nm, g) in r]
             return [("inv", r)]
@@ -611,6 +617,7 @@ class Sym(Exec):
             st.assume(g)
         which = self.choose(st, 2, "loop")
         c = as_bool(self.rvalue(st, cond)) if cond is not None else z3.BoolVal(True)
+        head_state = st.clone() if which == 0 else None
         if which == 0:
             # preservation path
             if not is_do:
@@ -628,7 +635,7 @@ class Sym(Exec):
             if is_do:
                 c2 = as_bool(self.rvalue(st, cond))
                 st.assume(c2)
-            for nm, g in inv_list(st):
+            for nm, g in inv_list(st, head_state):
                 self.oblige(st, "%s.preserve.%s" % (tag, nm), g, "loop", n)
             if v0 is not None:
                 v1 = spec.variant(LoopView(self, st, entry))
